@@ -256,6 +256,26 @@ def check_apply(P, R):
              'a stored error response carries list-valued headers that apply() would share by reference')
 
 
+def _thread_independent_value(f, n):
+    """the stored value is built only from attributes of the application object itself (self.request, self.response, ...)
+    and constants: the same for every thread serving that application"""
+    if not isinstance(n, ast.Assign):
+        return False
+    at = f.cfg.node_of_stmt(n)[0]
+    for x in f.rd.closure_nodes(n.value, at):
+        if isinstance(x, ast.Name) and isinstance(x.ctx, ast.Load):
+            if x.id == 'self' or f.rd.is_local(x.id):
+                continue
+            return False
+        if isinstance(x, ast.Attribute):
+            d = dotted(x) or ''
+            if not d.startswith('self.'):
+                return False
+        if isinstance(x, (ast.Call, ast.Subscript)):
+            return False
+    return True
+
+
 def request_derived(f, exprs, at):
     """some expression derives from a parameter of the function (other than self/cls), from the request objects or from the
     result of calling a parameter (stream reads)"""
@@ -271,7 +291,7 @@ def request_derived(f, exprs, at):
     return False
 
 
-def check_shared_writes(P, R, rid, strict=False):
+def check_shared_writes(P, R, rid, strict=False, same_for_all_threads_ok=False):
     """strict=True (C08 / C10): every write to a location that outlives the request must be in the frozen table.
     strict=False (C09): only writes that carry request-derived data into such a location and are not preceded, on every
     path, by a reset of that location (scratch use) - i.e. the ones that can carry data into a later request or grow."""
@@ -304,6 +324,8 @@ def check_shared_writes(P, R, rid, strict=False):
             if not ok:
                 detail = (f'request-derived data is written into {w["target"]} ({w["kind"]}), a location that outlives the request, '
                           f'without a preceding reset: it is visible to later requests and grows with the number of requests')
+        elif not ok and same_for_all_threads_ok and _thread_independent_value(f, w['node']):
+            ok = True   # every thread of one application stores the very same object: unobservable between threads
         elif not ok:
             detail = (f'write to the shared location {w["target"]} ({w["kind"]}) that is not in the frozen table of reasoned shared writes')
         R.ob(rid, f, w['node'], ok, detail=detail,
